@@ -1,0 +1,23 @@
+//go:build verif
+
+// Contracts for package logger (comment-only; read by /verif/plvc).
+
+package logger
+
+// logging writes nothing the pipeline can observe
+//@ iface Logger.Debug
+//@ pure
+//@ iface Logger.Debugf
+//@ pure
+//@ iface Logger.Info
+//@ pure
+//@ iface Logger.Infof
+//@ pure
+//@ iface Logger.Warn
+//@ pure
+//@ iface Logger.Warnf
+//@ pure
+//@ iface Logger.Error
+//@ pure
+//@ iface Logger.Errorf
+//@ pure
